@@ -1648,6 +1648,9 @@ fn feat_node(n: &PNode, parent_compact: bool, flow: bool, out: &mut Vec<&'static
             if flow && s.starts_with(':') {
                 out.push("flow-colon-plain");
             }
+            if flow && (s.contains(":\"") || s.contains(":'")) {
+                out.push("flow-colon-quote");
+            }
         }
         PNode::Seq { flow: f, compact, items, .. } => {
             if *compact && !*f {
@@ -1759,6 +1762,12 @@ pub fn features(ps: &PStream) -> String {
                 out.push("qkey-after-empty");
             }
         }
+    }
+    if t.contains("]:") || t.contains("}:") {
+        out.push("bracket-colon");
+    }
+    if render(ps).len() % 64 == 0 {
+        out.push("len64");
     }
     out.sort();
     out.dedup();
